@@ -81,11 +81,11 @@ Qed.
 Definition ex_em : list (list cp) := [[72; 105]; [20320]; [45]; [33; 8220]; [102; 102; 105]; [8364; 32; 53]; [90]].
 Definition ex_txt : list cp := [72; 105; 20320; 45; 10; 33; 8220; 32; 102; 102; 105; 8364; 32; 53; 90].
 Example ex_case_ok :
-  case_code (ex_page, 0, [(1, ex_txt, ex_em, ex_txt, [[72; 105; 20320; 45]; [33; 8220]; [102; 102; 105]; [8364; 32; 53; 90]]);
-                          (1, ex_txt, ex_em, removelast ex_txt, [removelast ex_txt])]) = 0.
+  case_code (ex_page, 0, [([1; 3; 9], ex_txt, ex_em, ex_txt, [[72; 105; 20320; 45]; [33; 8220]; [102; 102; 105]; [8364; 32; 53; 90]]);
+                          ([1], ex_txt, ex_em, removelast ex_txt, [removelast ex_txt])]) = 0.
 Proof. vm_compute. reflexivity. Qed.
 Example ex_case_lost :
-  case_code (ex_page, 0, [(1, ex_txt, ex_em, tl ex_txt, [ex_txt])]) = 2
-  /\ case_code (ex_page, 0, [(1, ex_txt, ex_em, 72 :: ex_txt, [ex_txt])]) = 2
-  /\ case_code (ex_page, 0, [(1, tl ex_txt, ex_em, ex_txt, [ex_txt])]) = 1.
+  case_code (ex_page, 0, [([1], ex_txt, ex_em, tl ex_txt, [ex_txt])]) = 2
+  /\ case_code (ex_page, 0, [([1; 3], ex_txt, ex_em, 72 :: ex_txt, [ex_txt])]) = 2
+  /\ case_code (ex_page, 0, [([1], tl ex_txt, ex_em, ex_txt, [ex_txt])]) = 1.
 Proof. vm_compute. repeat split; reflexivity. Qed.
